@@ -320,7 +320,7 @@ Section StepFuel.
     - destruct (slice src _ _); [|exact I].
       apply stq_bind; [apply raw_string_nf|]. intros el _.
       apply stq_bind; [apply push_front_nf|]. intros ts' _. cbn [stq fst snd]. split; [apply Suffix_refl | exact HB1].
-    - apply stq_bind; [apply span_str_nf|]. intros txt _.
+    - destruct (slice src _ _); [|exact I].
       apply stq_bind; [apply raw_string_nf|]. intros el _. cbn [stq fst snd]. split; [apply Suffix_refl | exact HB1].
     - (* block start *)
       apply Pro; [|apply Suffix_refl]. intros es ts1 it1 S1.
@@ -329,16 +329,31 @@ Section StepFuel.
         unfold with_ts; cbn [c_hs]; [exact HB1|].
       constructor; [|exact HB1]. unfold hb_le, mk_helper. cbn. lia.
     - (* invert *)
+      match goal with |- stq _ _ (let '(chain_pre, ita) := ?X in _) =>
+        destruct X as [chain_pre ita] eqn:Epa end.
+      assert (Sa : Suffix ita it).
+      { destruct chain; [|inversion Epa; apply Suffix_refl].
+        destruct it as [|t0 it0']; [inversion Epa; apply Suffix_refl|].
+        destruct (is_rule R_leading_tilde_to_omit_whitespace t0); inversion Epa; subst;
+          [apply Suffix_cons, Suffix_refl | apply Suffix_refl]. }
+      clear Epa. pose proof (Suffix_length _ _ Sa) as La.
       apply stq_bind.
       + destruct chain; [|discriminate]. apply nf_bind; [|intros [a b] _; discriminate].
         apply (proj1 (proj2 (proj2 (parsers_fuel src f)))). lia.
       + intros it0 E0.
         assert (S0 : Suffix it0 it).
-        { destruct chain; [|inversion E0; apply Suffix_refl].
-          pose proof (proj1 (proj2 (proj2 (parsers_sfx src f))) it) as H.
-          destruct (parse_name src f it) as [[nm it']| | |]; cbn [cbind sfx snd] in *; try discriminate.
+        { eapply Suffix_trans; [|exact Sa].
+          destruct chain; [|inversion E0; apply Suffix_refl].
+          pose proof (proj1 (proj2 (proj2 (parsers_sfx src f))) ita) as H.
+          destruct (parse_name src f ita) as [[nm it']| | |]; cbn [cbind sfx snd] in *; try discriminate.
           inversion E0; subst. exact H. }
-        apply Pro; [|exact S0]. intros es ts1 it1 S1.
+        pose proof (Suffix_length _ _ S0) as L0.
+        apply stq_bind; [apply (proj1 (parsers_fuel src f)); lia|]. intros [e0 it1] Ee.
+        pose proof (proj1 (parsers_sfx src f) it0 (tk_end pr)) as He. rewrite Ee in He. cbn [sfx snd] in He.
+        assert (S1 : Suffix it1 it) by (eapply Suffix_trans; eassumption).
+        apply stq_bind.
+        { destruct (es_pre _); [|discriminate]. unfold remove_previous_whitespace. destruct (c_ts c1); discriminate. }
+        intros ts1 _.
         apply stq_bind; [apply standalone_nf|]. intros [trim ts2] _.
         destruct ts2 as [|t ts3]; [exact I|]. destruct (c_hs c1) as [|h hs] eqn:Eh; [exact I|].
         inversion HB as [|h' hs' Hh Hhs]; subst.
